@@ -120,6 +120,12 @@ def check_run(run, pre, classes):
         out.append(("structure", e))
     if run.ledger and " errs 0" not in run.ledger:
         out.append(("ledger", run.ledger))
+    for h in run.h:
+        if h["op"][0] == "hold" and not h["res"].endswith("changed 0"):
+            out.append(("epoch", "memory handed out inside a session changed before leave: " + h["res"]))
+    if run.trace:
+        for b in epoch_order(run)[2]:
+            out.append(("epoch", b))
     perkey = {}
     tmax = max([h["ret"] for h in run.h] + [0]) + 1
 
@@ -274,3 +280,101 @@ if __name__ == "__main__":
     text = sys.stdin.read()
     for r in parse(text):
         print(r.header, check_run(r, {}, None))
+
+
+# ---------------------------------------------------------------- reclamation order (C07)
+def epoch_order(run):
+    """from the trace: an object is reclaimed only after every session that was open when it was
+    retired has left. Returns (n_retired, n_reclaimed_in_trace, violations[list of str])."""
+    open_s = {}        # slot -> session generation
+    gen = 0
+    witness = {}       # obj -> set of (slot, generation)
+    nret = nrec = 0
+    bad = []
+    for l in run.trace:
+        w = l.split()
+        if len(w) < 8:
+            continue
+        kind, field, slot, obj = int(w[3]), int(w[4]), int(w[5]), w[6]
+        if kind != 6:
+            continue
+        if field == 16:
+            gen += 1
+            open_s[slot] = gen
+        elif field == 17:
+            g = open_s.pop(slot, None)
+            for ws in witness.values():
+                ws.discard((slot, g))
+        elif field in (12, 13):
+            nret += 1
+            witness[obj] = set(open_s.items())
+        elif field in (14, 15):
+            nrec += 1
+            ws = witness.pop(obj, None)
+            if ws:
+                bad.append("object %s reclaimed (step %s) while sessions %s that were open when it was retired are still open" % (obj, w[1], sorted(ws)))
+    return nret, nrec, bad
+
+
+# ---------------------------------------------------------------- lock order (C09)
+K_STORE, K_CAS_OK = 1, 7
+F_VERSION, F_ROOTLOCK = 1, 5
+
+
+def lock_order(run):
+    """lockdep over one run's trace: edges A -> B when a thread acquires B while holding A.
+    Returns (n_acquisitions, cycle or None, locks still held at the end)."""
+    owner = {}      # lock -> tid
+    held = {}       # tid -> list of locks in acquisition order
+    edges = {}
+    nacq = 0
+    for l in run.trace:
+        w = l.split()
+        if len(w) < 8:
+            continue
+        tid, kind, field, obj, val = int(w[2]), int(w[3]), int(w[4]), w[6], int(w[7])
+        if field == F_VERSION and kind == K_CAS_OK:
+            locked = (val >> 29) & 1
+            lk = "n" + obj
+            if locked and lk not in owner:
+                owner[lk] = tid
+                for a in held.get(tid, []):
+                    edges.setdefault(a, set()).add(lk)
+                held.setdefault(tid, []).append(lk)
+                nacq += 1
+            elif not locked and owner.get(lk) == tid:
+                del owner[lk]
+                held[tid].remove(lk)
+        elif field == F_ROOTLOCK and kind == K_CAS_OK:
+            lk = "r" + obj
+            owner[lk] = tid
+            for a in held.get(tid, []):
+                edges.setdefault(a, set()).add(lk)
+            held.setdefault(tid, []).append(lk)
+            nacq += 1
+        elif field == F_ROOTLOCK and kind == K_STORE:
+            lk = "r" + obj
+            if owner.get(lk) == tid:
+                del owner[lk]
+                held[tid].remove(lk)
+    # cycle search
+    color = {}
+    cyc = None
+
+    def dfs(u, path):
+        nonlocal cyc
+        color[u] = 1
+        for v in edges.get(u, ()):
+            if cyc:
+                return
+            if color.get(v) == 1:
+                cyc = path + [u, v]
+                return
+            if color.get(v) is None:
+                dfs(v, path + [u])
+        color[u] = 2
+
+    for u in list(edges):
+        if color.get(u) is None and not cyc:
+            dfs(u, [])
+    return nacq, cyc, sorted(owner)
